@@ -106,6 +106,7 @@ fn main() {
         EPOCH.fetch_add(1, Ordering::SeqCst);
         *current.lock().unwrap() = Some((case.id.clone(), Instant::now()));
         *CUR.lock().unwrap() = Some(case.id.clone());
+        let case_t0 = Instant::now();
         let uniq = format!("{}", n);
         let mut fresh_engine;
         let e = if case.fresh { fresh_engine = new_engine(&log); &mut fresh_engine } else { &mut shared };
@@ -148,6 +149,11 @@ fn main() {
         let vtag = if unplanned { format!("{}|unplanned-recycle", case.tag) } else { case.tag.clone() };
         let v = Verdict { id: case.id.clone(), tag: vtag, pass: why.is_empty(), why, step: bad_step, got: gots };
         let mut o = out.lock().unwrap();
+        let ms = case_t0.elapsed().as_millis() as u64;
+        if ms >= 500 {
+            // budget tuning aid: cases that take long (ignored by the driver's verdict parser)
+            writeln!(o, "{}", serde_json::json!({"elapsed": v.id, "ms": ms})).unwrap();
+        }
         writeln!(o, "{}", serde_json::to_string(&v).unwrap()).unwrap();
         o.flush().unwrap();
     }
